@@ -18,8 +18,8 @@ def cfgs(ctx):
     if not ctx.quick():
         l4 = F.L(("a", "b"), ("b", "c"), ("c", "d"))
         r4 = F.L(("a", "b"), ("b", "c"), ("c", "d"), ("a", "d"))
-        out.append(F.base("c13-stable4", F.A4, r4, initups=[l4, r4], exits=[["a"], ["a", "c"]], announcers=["a", "c"]))
-        out.append(F.base("c13-join4", F.A4, l4, initups=[l4[:2]], exits=[["a"]], announcers=["a"], conn=1, exp=1))
+        out.append(F.base("c13-stable4", F.A4, r4, initups=[l4, r4], exits=[["a"], ["a", "c"]], announcers=["a", "b", "c"]))
+        out.append(F.base("c13-join4", F.A4, l4, initups=[l4[:2]], exits=[["a"]], announcers=["a", "b"], conn=1, exp=1))
     return out
 
 
@@ -27,7 +27,7 @@ def run(ctx):
     runs = F.model(ctx, cfgs(ctx))
     caught = F.sensitivity(ctx, DEVS)
     rep = F.replay(ctx, runs)
-    ntr, nops = (25, 50) if ctx.quick() else (400, 90)
+    ntr, nops = (25, 50) if ctx.quick() else (1200, 100)
     tr = F.traces(ctx, "TestZZVFloodTrace", {"ZZV_TRACES": ntr, "ZZV_OPS": nops}, "c13trace")
     F.report(ctx, "C13", rep, [tr])
     st, trn = F.coverage(runs)
